@@ -1411,16 +1411,19 @@ class Interp:
 
     def op_norm(self, i, o):
         a = self.pick(i)
-        ordv = [None, 1, 2, np.inf, 0, -np.inf][o % 6]
-        res = self.npc.norm(a.arr, ordv) if o % 2 else a.arr.norm(ordv)
         flat = a.dense.ravel()
-        if ordv == 0:
-            exp = np.count_nonzero(flat)
-        elif ordv == -np.inf:
-            exp = np.min(np.abs(flat)) if flat.size else 0.
-        else:
-            exp = np.linalg.norm(flat, ordv) if flat.size else 0.
-        require(abs(res - exp) <= 1e-12 * max(1., abs(exp)), 'norm', 'ord=%r: got %r expected %r' % (ordv, res, exp), op=self.opname, ord=str(ordv))
+        # (all orders at once: the interesting cases - e.g. -inf on a tensor whose blocks cover every entry - are rare per order)
+        for k, ordv in enumerate([None, 1, 2, np.inf, 0, -np.inf, 3, 0.5]):
+            res = self.npc.norm(a.arr, ordv) if (o + k) % 2 else a.arr.norm(ordv)
+            if ordv == 0:
+                exp = np.count_nonzero(flat)
+            elif ordv == -np.inf:
+                exp = np.min(np.abs(flat)) if flat.size else 0.
+            elif ordv in (3, 0.5):
+                exp = np.sum(np.abs(flat) ** ordv) ** (1. / ordv) if flat.size else 0.
+            else:
+                exp = np.linalg.norm(flat, ordv) if flat.size else 0.
+            require(abs(res - exp) <= 1e-12 * max(1., abs(exp)), 'norm', 'ord=%r: got %r expected %r' % (ordv, res, exp), op=self.opname, ord=str(ordv))
         return 'scalar'
 
     def op_unary(self, i, f, inplace):
